@@ -137,7 +137,10 @@ def check_C01(tier, seed):
                 scripts.append([mk("create", snap=bases[a]), mk("update", t=1, snap=bases[b]), mk("fixpoint", t=1),
                                 mk("update", t=1, snap=bases[a]), mk("fixpoint", t=1)])
         # every value class of every field written through a snapshot (on top of the minimal and the full base)
-        for sq in seqs:
+        # (file_bytes has no setter, hence no setter sequence in the model's output: its value classes are added here, so that
+        #  "an update that changes this field only" exists for every snapshot field)
+        fb_classes = [{"f": "file_bytes", "v": v} for v in ([], ["0"], ["1"], ["7654321"], ["1099511627776"])]
+        for sq in seqs + [[x] for x in fb_classes]:
             f, v = sq[0]["f"], sq[0]["v"]
             if f in ("hot_cue_at", "loop_at"):
                 continue
